@@ -26,4 +26,19 @@ CLAIMS = {
         'technique': 'static analysis: table extraction vs CPython parser oracle, sibling agreement, '
                      'finite-domain decision tables (ast only)',
     },
+    'C19': {
+        'text': "Exhaustive table check against CPython: all 109 cells of VALID_BINOP_TYPES are extracted and each "
+                "result function is abstracted from its return expressions; for every operator x ordered pair of core "
+                "types CPython's operator module is applied to frozen representatives (incl. empty containers, "
+                "negative bases and exponents) - a pair CPython always rejects must have no cell, and a present cell "
+                "must be a pedal Type every CPython result conforms to. The dispatch function is tabulated by a "
+                "whitelist abstract interpreter over hit/miss/Any/literal scenarios; orderable sets and "
+                "allows_membership overrides are extracted and compared with CPython's TypeError behaviour; value "
+                "typing is checked for one-shot generators, set subscripts, bool-before-int and class conformance.",
+        'note': _NOTE + "Not decided: expression trees deeper than one operator (covered only through "
+                        "compositionality of the table); element types inside containers. Three Pow cells whose "
+                        "CPython result type is value-dependent are recorded as known findings.",
+        'technique': 'static analysis: extracted operator/ordering tables vs CPython operator oracle (exhaustive), '
+                     'finite-domain decision table of the dispatcher (ast only)',
+    },
 }
